@@ -192,6 +192,9 @@ func (ms msgServer) EditOracleParams(goCtx context.Context, msg *types.MsgEditOr
 	}
 
 	mergedParams := mergeOracleParams(msg, params)
+	if err := mergedParams.Validate(); err != nil {
+		return nil, err
+	}
 
 	ms.Keeper.UpdateParams(ctx, mergedParams)
 
